@@ -27,21 +27,46 @@ theorem C10_binary_search (hs : List Hdr) (key : Bytes) (hsorted : Proofs.KeySor
         (∀ h ∈ hs.drop (i + n), Proofs.keyMatch key h = false) :=
   Proofs.searchHeader_spec hs key hsorted
 
+/-- (audit au2) Non-vacuity of `KeySorted`: a table as `message_parse_headers` leaves it - sorted by `strcasecmp`,
+three occurrences of `Received` in three letter cases kept in file order (ids 1, 4, 5) - and what the search
+returns on it. -/
+def C10_table : List Hdr :=
+  [⟨3, ofString "cc", ofString "x"⟩, ⟨1, ofString "Received", ofString "a"⟩, ⟨4, ofString "received", ofString "b"⟩,
+   ⟨5, ofString "RECEIVED", ofString "c"⟩, ⟨2, ofString "To", ofString "y"⟩]
+
+example : Proofs.KeySorted C10_table := by unfold Proofs.KeySorted; decide +kernel
+
+example : searchHeader C10_table (ofString "received") = some (1, 3) ∧ searchHeader C10_table (ofString "TO") = some (4, 1) ∧
+    searchHeader C10_table (ofString "Date") = none := by decide +kernel
+
 /-- Unfolding yields one logical line: no newline survives, and it is the documented
 unfolding (newlines and the TABs starting a continuation line dropped). -/
 theorem C10_unfold (v : Bytes) : unfoldHeader v = Spec.unfold v ∧ (10 : UInt8) ∉ unfoldHeader v :=
   ⟨Proofs.unfoldHeader_eq_spec v, Proofs.unfoldHeader_no_newline v⟩
 
+/-- (audit au2) What `Spec.unfold` is: the words of a TAB-folded value are glued together (RFC 5322 unfolding would
+keep the TAB), a SPACE-folded one keeps its space, an unfolded value keeps its TABs. -/
+example : Spec.unfold (ofString "foo\n\tbar") = ofString "foobar" ∧ Spec.unfold (ofString "foo\n bar") = ofString "foo bar" ∧
+    Spec.unfold (ofString "foo\n\t bar") = ofString "foo bar" ∧ Spec.unfold (ofString "\tfoo\tbar") = ofString "\tfoo\tbar" := by
+  decide +kernel
+
 /-- For every well-formed message and every field name: the values a header condition is
 applied to are the decoded logical values of exactly the occurrences whose name equals the
-requested one case-insensitively, in file order; absent iff there is no such occurrence. -/
+requested one case-insensitively, in file order; absent iff there is no such occurrence.
+Domain: `Spec.read m = some _` is `Spec.WF m` of C08 - it also demands an empty line after the header block
+and a body that does not start with an empty line, which header lookup does not depend on; messages with CRLF
+line ends, header-only messages and bodies starting with an empty line are NOT covered by this theorem (nor by
+`C10_header_cond*` / `C10_date_header`), see design-notes/audit-C07-C12.md. -/
 theorem C10_lookup (m : Bytes) (fs : List (Bytes × Bytes)) (b : Bytes) (name : Bytes)
     (h : Spec.read m = some (fs, b)) :
     getHeader (parseMessage m) name =
       (if (Spec.headerValues fs name).isEmpty then none else some (Spec.headerValues fs name)) :=
   Proofs.getHeader_eq_spec m fs b name h
 
-/-- The flags every pattern is compiled with (table regenerated from expr.c). -/
+/-- The flags every pattern is compiled with (table regenerated from expr.c by tools/gen_tables.py; this is a
+statement about that generated constant, closed by `decide`, not about a model function).  NOT stated anywhere:
+that the pattern flag `i` adds `REG_ICASE` - `Pat.icase` is a field the oracle `env.rx` receives, and what the
+oracle does with it is the platform `regcomp`'s business, compared by the correspondence run only. -/
 theorem C10_regflags : Gen.regcompBaseFlags = ["REG_EXTENDED", "REG_NEWLINE"] := by decide
 
 /-! ## The condition as a whole: `header { names } /pattern/`
